@@ -111,7 +111,7 @@ def rule_p_wrap(ctx):
             deleg = [c for c in calls if c.method in ("drive_unindexed",)]
             srcs = [c for c in calls if c.local_callee() is not None and c.local_callee().name in ("par_keys", "into_par_iter", "par_iter", "par_difference")]
             n += 1
-            ok = len(deleg) == 1 and deleg[0].dest["local"] == 0 and srcs
+            ok = len(deleg) == 1 and deleg[0].dest["local"] in b.ret_locals() and srcs
             R.inst(fn=b.path, over=[c.tname for c in srcs][:2], verdict="ok" if ok else "VIOLATION")
             if not ok:
                 R.viol(b.path, b.where(Loc(0, 0)), "parallel iterator is neither built on the raw parallel iterator nor on another public one")
@@ -131,7 +131,7 @@ def rule_p_wrap(ctx):
             q = d.arg_path(1)
             if q is None or q.root != 2:
                 why.append("not driven with the caller's consumer")
-            if not (d.dest and d.dest["local"] == 0):
+            if not (d.dest and d.dest["local"] in b.ret_locals()):
                 why.append("the drive's result is not returned")
         rp = raw[0].arg_path(0) if raw else None
         if rp is not None and rp.root != 1:
@@ -316,8 +316,19 @@ def rule_y_order(ctx):
     for b in ctx.facts.bodies.values():
         if "external_trait_impls::rayon" not in b.path:
             continue
-        uses_collect = any(c.local_callee() is not None and c.local_callee().name == "collect" for c in ctx.calls(b))
-        is_collect_part = "rayon::helpers::" in b.path
+        T_ = ctx.facts.types
+        # a body that obtains the list of chunks: from the gathering helper, or (helper merged into it) from the parallel reduction itself
+        uses_collect = any(not b.is_cleanup(c.loc.bb) and c.dest is not None and "LinkedList" in T_[c.dest["ty"]]["s"]
+                           and ((c.local_callee() is not None and c.local_callee().kind != "Closure") or c.method == "reduce") for c in ctx.calls(b))
+        if uses_collect:
+            # ... unless it hands that list on to its caller (then it is the gathering helper itself)
+            for rb in b.return_blocks():
+                ret_op = {"k": "copy", "place": {"local": 0, "proj": [], "ty": b.locals[0]["ty"]}}
+                sl, _ = b.slice_back(Loc(rb, len(b.stmts(rb))), [ret_op])
+                if any(c.loc in sl for c in ctx.calls(b) if c.dest is not None and "LinkedList" in T_[c.dest["ty"]]["s"] and c.method == "reduce"):
+                    uses_collect = False
+        # ... and the bodies that take part in gathering them (anything in the rayon modules that touches a LinkedList)
+        is_collect_part = "rayon::helpers::" in b.path or any("LinkedList" in (c.tname or "") or "linked_list" in (c.tname or "") for c in ctx.calls(b))
         if not (uses_collect or is_collect_part):
             continue
         n += 1
